@@ -1,3 +1,5 @@
 import Dhcp.Go.Basic
 import Dhcp.Go.Lexer
 import Dhcp.V4.Packet
+import Dhcp.Label
+import Dhcp.Spec.Name
